@@ -2,7 +2,7 @@
    instantiated at the real numbers (Rops); the executed instance is Qops.  Column norms enter as data with
    the contract norms_valid (n > 0, n^2 = sum of squares); linear_sum_assignment is the oracle `assign`
    with contract lsa_contract (a maximum-weight perfect matching). *)
-From Coq Require Import List Arith Bool Reals QArith.
+From Coq Require Import List Arith Bool Reals QArith Lia Lra.
 From TLV Require Import Base.Shape Base.PyList Base.Tensor Base.Ops Base.RSum Model.Metrics Proofs.MetricsProofs
   Proofs.MetricsProofs2 Proofs.MetricsProofs3 Proofs.MetricsProofs4.
 Import ListNotations.
@@ -144,7 +144,9 @@ Definition C20_ex_mode : cmode R := mkMode [[3]; [4]] [[-6]; [-8]] [5] [10].
 Example C20_ex_mode_ok : mode_ok 1 C20_ex_mode /\ col_multiple C20_ex_mode 0 0 (-2) /\ equivalent_by true 1 [C20_ex_mode] [0%nat].
 Proof.
   assert (M : mode_ok 1 C20_ex_mode).
-  { repeat split; try reflexivity; intros j Hj; assert (j = 0%nat) as -> by lia; cbn; lra. }
+  { unfold mode_ok, norms_valid, C20_ex_mode. cbn [mA mB nA nB].
+    split; [reflexivity|]. split; [reflexivity|]. split; [reflexivity|].
+    split; intros j Hj; (assert (j = 0%nat) as -> by (cbn in Hj; lia)); cbn; lra. }
   assert (K : col_multiple C20_ex_mode 0 0 (-2)).
   { split; [lra|]. intros k Hk. cbn in Hk. destruct k as [|[|k]]; cbn; try lra. lia. }
   split; [exact M|]. split; [exact K|]. split; [apply is_perm_id|].
@@ -152,6 +154,7 @@ Proof.
 Qed.
 
 (* the executed instance accepts such an input and returns 1 with the recovering permutation *)
+Local Open Scope Q_scope.
 Example C20_ex_congruence_Q :
   congruence Qops true [[[3#1]; [4#1]]] [[[-6#1]; [-8#1]]] [[5#1]] [[10#1]] (fun _ => [0%nat]) = Ok (1%Q, [0%nat]).
 Proof. vm_compute. reflexivity. Qed.
